@@ -234,7 +234,7 @@ def coq_assumptions(ctx, pid, names):
         if "Closed under the global context" in txt:
             res[n] = (True, [], True)
         else:
-            ax = re.findall(r"^([A-Za-z0-9_.']+)\s*:", txt, re.M)
+            ax = [a for a in re.findall(r"^([A-Za-z0-9_.']+)\s*:", txt, re.M) if a != "Axioms"]
             ok = all(a in ALLOWED_AXIOMS or a.split(".")[-1] in ALLOWED_AXIOMS or
                      a.startswith(("PrimFloat.", "Uint63.", "FloatAxioms.", "PrimInt63.", "FloatOps.", "Sint63.")) for a in ax)
             res[n] = (False, ax, ok)
@@ -243,12 +243,33 @@ def coq_assumptions(ctx, pid, names):
     return res
 
 
-def forbidden_scan():
-    """The grep gate: no Admitted/admit/Axiom/... anywhere in the development."""
+def dep_closure(pid):
+    """Files (relative to coq/) that props/<pid>.v and corr/<pid>_Corr.v transitively Require from Hy."""
+    seen, todo = set(), ["props/%s.v" % pid]
+    cd = os.path.join(COQ, "corr")
+    if os.path.isdir(cd):
+        todo += ["corr/" + n for n in os.listdir(cd) if n.startswith(pid + "_") and n.endswith(".v")]
+    while todo:
+        rel = todo.pop()
+        if rel in seen or not os.path.exists(os.path.join(COQ, rel)):
+            continue
+        seen.add(rel)
+        src = open(os.path.join(COQ, rel)).read()
+        for m in re.finditer(r"From\s+Hy\s+Require\s+(?:Import\s+|Export\s+)?(.*?)\.(?=\s|$)", src, re.S):
+            for mod in m.group(1).split():
+                todo.append(mod.replace(".", "/") + ".v")
+        for m in re.finditer(r"(?<!Hy\s)Require\s+(?:Import\s+|Export\s+)?(.*?)\.(?=\s|$)", src, re.S):
+            for mod in m.group(1).split():
+                if mod.startswith("Hy."):
+                    todo.append(mod[3:].replace(".", "/") + ".v")
+    return sorted(seen)
+
+
+def forbidden_scan(pid=None):
+    """The grep gate: no Admitted/admit/Axiom/... in the files the property's theorems depend on
+    (whole development when pid is None)."""
     bad = []
-    for rel in coq_files():
-        if rel.startswith("gen/"):
-            pass
+    for rel in (dep_closure(pid) if pid else coq_files()):
         src = open(os.path.join(COQ, rel)).read()
         # strip comments (non-nested is enough for our files; nested handled by loop)
         prev = None
@@ -272,7 +293,7 @@ def proof_stage(ctx, pid, extra_targets=()):
         m = re.search(r'File "\./([^"]+)", line (\d+)', log)
         info["broken_at"] = "%s:%s" % (m.group(1), m.group(2)) if m else "unknown"
         return False, info
-    bad = forbidden_scan()
+    bad = forbidden_scan(pid)
     if bad:
         info["forbidden"] = bad
         return False, info
@@ -472,7 +493,12 @@ def eval_cases(ctx, prefix, header, terms, per_shard=250, timeout=900):
         return True, [], ""
     ns = max(1, -(-len(terms) // per_shard))
     groups = [terms[si::ns] for si in range(ns)]
-    texts = [header + "\nDefinition cases : list case := [\n" + ";\n".join(g) + "\n].\n" + CASES_TAIL for g in groups]
+    # one Definition per case: elaborating one big list literal is quadratic in its size
+    texts = []
+    for g in groups:
+        defs = "\n".join("Definition c%d_ : case := %s." % (i, t) for i, t in enumerate(g))
+        lst = "Definition cases : list case := [" + ";".join("c%d_" % i for i in range(len(g))) + "]."
+        texts.append(header + "\n" + defs + "\n" + lst + "\n" + CASES_TAIL)
     res = coq_eval_shards(ctx, prefix, texts, timeout)
     mism = []
     for si, (rc, out, err) in enumerate(res):
